@@ -16,6 +16,10 @@ def oracles_():
 TRUSTED = [
     "ocaml/tree_io.ml (reads / prints lyx dumps and the schema line), tools/treeenc.py (yanggen module -> schema line with "
     "sids in lys_getnext order), tools/yanggen.py (modules and instances), impl/lyx.c (dump, merge, inv commands)",
+    "impl/t_c14x.c (lyx.c included unchanged + the four lyd_dup_* entry points with a parent argument, lyd_merge_tree / "
+    "lyd_merge_module with a recording callback, anydata values / opaque nodes, extended dump with flags and private pointers, "
+    "heap-disjointness and context-ownership walks), tools/props/comps_c14x.py (generator additions: anydata / anyxml / when / "
+    "second module / rpc; dup_expect and merge_ref: the expected trees computed from the dumps of the operands)",
 ]
 
 ASSUMPTIONS = [
@@ -41,13 +45,29 @@ MANIFEST = {
             "second merge and the invariant checker; dumps must agree byte for byte incl. default flags and metadata "
             "(component mergemodel); the Tree foundation itself is tied by component treeio (parse, canonb, shuffled re-insertion "
             "with insert_node, print). The API oracle mergedup (also under ASan) checks the same laws plus duplicates: equal per "
-            "option set, into another context, and independent (editing / freeing either tree leaves the other's dump unchanged).",
+            "option set, into another context, and independent (editing / freeing either tree leaves the other's dump unchanged). "
+            "Oracles dupmatrix / mergekinds (comps_c14x.py, driver t_c14x) extend this to what Tree.v does not hold: anydata / anyxml "
+            "values of every representation, opaque nodes with attributes (created by the API and by the parser), metadata on every "
+            "node kind, a second module, an rpc tree. dupmatrix: LYD_DUP_RECURSIVE / NO_META / WITH_PARENTS / WITH_FLAGS / WITH_PRIV in "
+            "all combinations x lyd_dup_single / _siblings / _single_to_ctx / _siblings_to_ctx x with / without a parent argument "
+            "(same and other context, matching / not matching ancestor) x node position classes; the expected tree, the returned "
+            "node and the refusals are computed from the dump of the original (dup_expect), plus heap disjointness (no common "
+            "block), context ownership of every node, original unchanged, duplicate intact after editing / freeing the other. "
+            "mergekinds: LYD_MERGE_DESTRUCT / DEFAULTS / WITH_FLAGS in all combinations x lyd_merge_tree / _siblings / _module "
+            "(callback log, module filter), empty / equal / nested source, empty target; result, LYD_NEW marks, callback calls, "
+            "source afterwards and a second merge are compared with a reference merge of the dumped operands (merge_ref).",
     "note": "PARTIAL. (1) Independence of a duplicate / of the merge source is a heap property (no shared mutable state): the value "
             "model cannot express it, Merge.dup is the identity; only the sanitizer-backed oracle looks at it. (2) The three "
             "_partial theorems do not speak about instances of duplicate-instance lists (key-less lists, config false leaf-lists): "
             "they have no instance path and are matched by position through the lyd_dup_inst cache; the model implements that "
-            "(and T2 exercises it), the theorems exclude it. (3) lyd_dup_* options (parents, no-meta, to another context) are not "
-            "modelled beyond 'equal value'. (4) Not in Tree.v: LYD_NEW, opaque nodes, several modules, hashes / lyds trees (C04).",
+            "(and T2 exercises it), the theorems exclude it. (3) lyd_dup_* options (parents, no-meta, flags, to another context, parent "
+            "argument) are not in the Coq model; they are decided by the oracle dupmatrix against an independent expectation. "
+            "(4) Not in Tree.v: LYD_NEW, opaque nodes, anydata, several modules, hashes / lyds trees (C04); merge on these is decided "
+            "by mergekinds against a Python reference (which leaves the default mark of non-presence containers and the order inside "
+            "system-ordered lists to mergemodel / the invariant checker). LYD_DUP_NO_EXT / extension data (schema mount) and "
+            "notifications are not exercised. Known findings: dup-to-ctx-any-tree-ctx, dup-to-ctx-key-lookup, "
+            "merge-opaque-nested-dup-inst, merge-opaque-value-update (known_findings.d/c14x.json); because the last two abort the "
+            "process, only every 8th mergekinds case places opaque nodes where they hit them.",
     "technique": "Coq proof about a transcribed functional model + differential correspondence on libyang dumps + metamorphic API "
                  "oracle under ASan",
 }
